@@ -16,6 +16,7 @@ type bitStream interface {
 	drawBits(n int) uint64
 	beginGroup(label string, standalone bool) int
 	endGroup(i int, discard bool)
+	drawn() int
 }
 
 func baseSeed() uint64 {
@@ -104,6 +105,14 @@ func (rec *recordedBits) record(u uint64) {
 	} else {
 		rec.dataLen++
 	}
+}
+
+// drawn returns the number of drawBits calls made so far.
+func (rec *recordedBits) drawn() int {
+	if rec.persist {
+		return len(rec.data)
+	}
+	return rec.dataLen
 }
 
 func (rec *recordedBits) beginGroup(label string, standalone bool) int {
